@@ -452,6 +452,41 @@ def mutate(rng, o, r, nobj, ops):
                     ops.append(["setNumberDensity", i, nuc, v])
         except Exception:  # noqa: BLE001
             continue
+    # number-density DICTS with other key sets than the rest of the class (setNumberDensities wipes the old keys):
+    # same length / different keys, one shared key, disjoint, differing length, other key order, empty
+    byclass = {}
+    for i, c in comps:
+        byclass.setdefault(type(c), []).append((i, c))
+    multi = [v for v in byclass.values() if len(v) >= 2]
+    pool = sorted({n for _, c in comps[:400] for n in c.getNumberDensities()} | {"HE4", "NA23", "FE56"})
+    for group in rng.sample(multi, min(2, len(multi))):
+        i, c = rng.choice(group)
+        nd = c.getNumberDensities()
+        keys = list(nd)
+        if not keys:
+            continue
+        others = [n for n in pool if n not in nd] or pool
+        variant = rng.choice(["same-length-disjoint", "same-length-one-shared", "longer", "shorter", "reordered", "empty"]
+                             if rng.random() < 0.9 else ["empty"])
+        if variant == "same-length-disjoint":
+            new = {others[(j * 7 + i) % len(others)]: 2.5e-5 * (j + 1) for j in range(len(keys))}
+        elif variant == "same-length-one-shared":
+            new = {keys[0]: nd[keys[0]]}
+            new.update({others[(j * 5 + i) % len(others)]: 1.25e-4 * (j + 1) for j in range(len(keys) - 1)})
+        elif variant == "longer":
+            new = dict(nd)
+            new[others[i % len(others)]] = 3.0e-6
+        elif variant == "shorter":
+            new = {k: nd[k] for k in keys[: max(1, len(keys) - 1)]}
+        elif variant == "reordered":
+            new = {k: nd[k] * 1.5 for k in reversed(keys)}
+        else:
+            new = {}
+        try:
+            c.setNumberDensities(new)
+            ops.append(["setNumberDensities", i, [[k, v] for k, v in new.items()], variant])
+        except Exception:  # noqa: BLE001
+            continue
     assems = [(i, a) for i, a in enumerate(objs) if isinstance(a, Assembly) and a.parent is r.core]
     for i, a in rng.sample(assems, min(1, len(assems))):
         bl = [b for b in a]
@@ -494,6 +529,8 @@ def record_edit_states(ctx, fixture, r, new_ops):
         if kind == "setparam":
             v = op[3]
             form = ("array%dd" % np.ndim(v)) if isinstance(v, list) else type(v).__name__
+        elif kind == "setNumberDensities":
+            form = op[3]
         ctx.case((fixture, kind, form, cls), nontrivial=True)
         ctx.count(f"edit kind: {kind}{' ' + form if form else ''}")
 
@@ -512,6 +549,8 @@ def apply_ops(r, ops, o=None):
             objs[op[1]].setTemperature(op[2])
         elif kind == "setNumberDensity":
             objs[op[1]].setNumberDensity(op[2], op[3])
+        elif kind == "setNumberDensities":
+            objs[op[1]].setNumberDensities({k: v for k, v in op[2]})
         elif kind == "setHeight":
             a = objs[op[1]]
             [b for b in a][op[2]].setHeight(op[3])
